@@ -7,6 +7,7 @@ use std::panic;
 mod c02;
 mod c03;
 mod c04;
+mod c07;
 mod c08;
 mod c10;
 mod c11;
@@ -28,6 +29,7 @@ fn rerun(w: &Value) -> Option<Outcome> {
     match w["driver"].as_str()? {
         "c19_span" => Some(c19::run_span(w["input"]["text"].as_str()?, w["input"]["start"].as_u64()? as usize, w["input"]["end"].as_u64()? as usize)),
         "c02_lr1" => Some(c02::run(w["input"]["grammar"].as_str()?)),
+        "c07_recover" => Some(c07::run(w["input"]["grammar"].as_str()?, w["input"]["input"].as_str()?, w["input"]["cost"].as_u64()? as u8)),
         "c04_graph" => Some(c04::run(w["input"]["grammar"].as_str()?)),
         "c12_header" => Some(c12::run_header(w["input"]["text"].as_str()?)),
         "c12_yacc" => Some(c12::run_yacc(w["input"]["text"].as_str()?)),
@@ -52,6 +54,7 @@ fn search(unit: &str, tag: &str, tier: &str) -> Option<Value> {
         "c19_queries" | "c19_cols" => c19::search(tag, tier),
         "c02_weakly" => c02::search(tag, tier),
         "c04_pager" => c04::search(tag, tier).or_else(|| c02::search(tag, tier)),
+        "c07_lr" | "c06_moves" | "c06_dijkstra" => c07::search(tag, tier),
         "c12_header" => c12::search(tag, tier),
         "c12_lex" => c12::search_lex(tier),
         "c12_yacc" => c12::search_yacc(tier),
@@ -69,7 +72,7 @@ fn search(unit: &str, tag: &str, tier: &str) -> Option<Value> {
 }
 
 fn main() {
-    panic::set_hook(Box::new(|_| {}));
+    if std::env::var_os("REPLAY_SHOW_PANICS").is_none() { panic::set_hook(Box::new(|_| {})); }
     let args: Vec<String> = std::env::args().collect();
     if args.len() >= 3 && args[1] == "--witness" {
         let w: Value = serde_json::from_str(&args[2]).expect("witness json");
